@@ -233,7 +233,8 @@ pub struct BufId(pub(crate) u16);
 unsafe impl BufMut for Vec<u8> {
     unsafe fn parts_mut(&mut self) -> (*mut u8, u32) {
         let slice = self.spare_capacity_mut();
-        (slice.as_mut_ptr().cast(), slice.len() as u32)
+        let len = u32::try_from(slice.len()).unwrap_or(u32::MAX);
+        (slice.as_mut_ptr().cast(), len)
     }
 
     unsafe fn set_init(&mut self, n: usize) {
@@ -241,7 +242,7 @@ unsafe impl BufMut for Vec<u8> {
     }
 
     fn spare_capacity(&self) -> u32 {
-        (self.capacity() - self.len()) as u32
+        u32::try_from(self.capacity() - self.len()).unwrap_or(u32::MAX)
     }
 
     fn has_spare_capacity(&self) -> bool {
@@ -419,7 +420,9 @@ unsafe impl<B: BufMut, const N: usize> BufMutSlice<N> for [B; N] {
     }
 
     fn total_spare_capacity(&self) -> u32 {
-        self.iter().map(BufMut::spare_capacity).sum()
+        self.iter()
+            .map(BufMut::spare_capacity)
+            .fold(0, u32::saturating_add)
     }
 
     fn has_spare_capacity(&self) -> bool {
@@ -856,7 +859,7 @@ macro_rules! buf_slice_for_tuple {
             }
 
             fn total_spare_capacity(&self) -> u32 {
-                0 $( + self.$index.spare_capacity())+
+                0u32 $( .saturating_add(self.$index.spare_capacity()) )+
             }
 
             fn has_spare_capacity(&self) -> bool {
